@@ -341,6 +341,10 @@ class C18(Prop):
         and spec.get("cplx") and spec.get("v_real"),
     }
 
+    def fuzz(self, tier):
+        # millisecond cases: libFuzzer mutates the byte stream behind the strategy and keeps inputs reaching new library branches
+        return dict(runs=400 if tier == "quick" else 20000, shards=8 if tier == "quick" else 16, include=["renormalizer.lib", "renormalizer.mps.svd_qn"])
+
     def budget(self, tier):
         return dict(examples=6400, shards=16) if tier == "quick" else dict(examples=260000, shards=16)
 
